@@ -375,6 +375,11 @@ func GenMPTHistory(r *rand.Rand, maxOps int) []MOp {
 	}
 	// every sixth history uses realistic keys: 64 hex characters sharing long prefixes
 	longKeys := r.Intn(6) == 0
+	// ... and a third of those use keys longer than a hash (80 or 130 characters): a path may have any length
+	keyLen := 64
+	if longKeys && r.Intn(3) == 0 {
+		keyLen = []int{80, 130}[r.Intn(2)]
+	}
 	var ops []MOp
 	for i := 0; i < nops; i++ {
 		var p []byte
@@ -393,12 +398,12 @@ func GenMPTHistory(r *rand.Rand, maxOps int) []MOp {
 			p = mkPath()
 		}
 		if longKeys {
-			q := bytes.Repeat([]byte("0"), 64)
+			q := bytes.Repeat([]byte("0"), keyLen)
 			if len(pool) > 0 && r.Intn(3) > 0 {
 				copy(q, pool[r.Intn(len(pool))])
 			}
 			// change the key from some position on: shared prefixes of any length
-			for j := []int{0, 1, 2, 31, 32, 60, 62, 63}[r.Intn(8)]; j < 64; j += 1 + r.Intn(20) {
+			for j := []int{0, 1, 2, 31, 32, 60, 62, 63, keyLen - 2, keyLen - 1}[r.Intn(10)]; j < keyLen; j += 1 + r.Intn(20) {
 				q[j] = "0123456789abcdef"[r.Intn(16)]
 			}
 			p = q
